@@ -814,6 +814,25 @@ func pathAvoiding(fn *ssa.Function, from ssa.Instruction, target, avoid func(ssa
 			continue
 		}
 		succs := s.b.Succs
+		if len(s.b.Instrs) > 0 && len(succs) == 2 {
+			// a constant condition (`if configFlag {`) has one live successor
+			if iff, ok := s.b.Instrs[len(s.b.Instrs)-1].(*ssa.If); ok {
+				v, pol := stripNot(iff.Cond, true)
+				if isConstBool(v, true) {
+					if pol {
+						succs = succs[:1]
+					} else {
+						succs = succs[1:]
+					}
+				} else if isConstBool(v, false) {
+					if pol {
+						succs = succs[1:]
+					} else {
+						succs = succs[:1]
+					}
+				}
+			}
+		}
 		if s.prev != nil && len(s.b.Instrs) > 0 && len(succs) == 2 {
 			if iff, ok := s.b.Instrs[len(s.b.Instrs)-1].(*ssa.If); ok {
 				v, pol := stripNot(iff.Cond, true)
